@@ -125,7 +125,7 @@ class FakeCL(object):
 
 
 class Node(object):
-    def __init__(self, node_id, rx_routes=(), tx_routes=(), accept_after_verify=False, name=None, apps=None):
+    def __init__(self, node_id, rx_routes=(), tx_routes=(), accept_after_verify=False, name=None, apps=None, config_extra=None):
         ''' rx_routes: [(regex, action)], tx_routes: [(regex, next_node, mtu)] '''
         self.node_id = node_id
         self.ctx = simloop.Context(name or node_id)
@@ -137,6 +137,9 @@ class Node(object):
                                                             cl_type='fake', mtu=mtu, raw_config={'next': nxt}))
         if apps:
             cfg.apps = dict(apps)
+        for key, val in (config_extra or {}).items():
+            # (what a deployment sets in its configuration file, e.g. sign_key_file / sign_cert_file / verify_ca_file)
+            setattr(cfg, key, val)
         self.config = cfg
         with simloop.entered(self.ctx):
             self.agent = bp.agent.Agent(cfg)
